@@ -87,7 +87,14 @@ c20["level_note"] = ("Trusted: TLC, the client harness (client_drv.rs: mapping o
                      "Unix socket transport and local_client_wrapper only; acquire_lock, spub, last-will helpers not driven; schedules are sampled.")
 CHECKS.append(c20)
 
-PENDING = ["C19"]
+c19 = core("C19", "6/C19", "TLC explores Election.tla - the phases in which the election code blocks on its socket, the inbox, the vote counter with its de-duplication list, every timeout as a free step - against an environment that may send any datagram at any time (votes of members, non-members and the node itself, duplicated, unsolicited; vote requests of better/equal/worse priority; heartbeats of anybody) and checks on every step that a start in leader mode has the quorum of the running round behind it (distinct configured peers, reference counter) and a start in follower mode goes to a configured peer whose heartbeat was received. Real orchestrator processes (cluster sizes 1-7, default and configured quorums, refused configurations) are run against scripted UDP peers and a stub server executable; TLC explains each process' datagrams and server starts/stops as a behaviour of the specification with receive / timeout / heartbeat steps inferred.")
+c19["engine"] = "tlc-election"
+c19["technique"] = "TLA+ spec (Election) checked by TLC with C19 as step properties; black-box orchestrator processes against scripted UDP peers and a stub server, observations validated by TLC (trace validation with inferred internal steps)"
+c19["level_note"] = ("Trusted: TLC, the python peer harness (bin/orch.py: order of its own log, argv of the stub), loopback UDP (ordered, lossless). Safety only; "
+                     "run-time configuration changes and priorities derived from the data directory are not exercised; schedules of the real process are sampled.")
+CHECKS.append(c19)
+
+PENDING = []
 
 def main():
     import props
@@ -102,7 +109,9 @@ def main():
                         enable="the harness crate /verif/harness depends on /repo/worterbuch with default-features=false, features=[\"verif\",\"redb\"]",
                         baseline_off_cmd=BASELINE,
                         source_commits=["e19d4a5", "8c537d5", "d18b355"], add_only=True),
-             engines=[dict(name="tlc-client", path="spec/SendBuffer.tla spec/Trace_Buffer.tla spec/MC_C20buf.tla spec/Trace_Session.tla harness/src/client_drv.rs",
+             engines=[dict(name="tlc-election", path="spec/Election.tla spec/Trace_Election.tla spec/MC_C19.tla bin/orch.py harness/src/bin/wborch.rs",
+                           serves_properties=["C19"], kind_free_text="TLA+ model of one orchestrator node in a hostile environment; TLC; black-box process runs validated by TLC"),
+                      dict(name="tlc-client", path="spec/SendBuffer.tla spec/Trace_Buffer.tla spec/MC_C20buf.tla spec/Trace_Session.tla harness/src/client_drv.rs",
                            serves_properties=["C20"], kind_free_text="client library over a real socket: task logs linearized by TLC; send buffer model + paused-clock trace validation"),
                       dict(name="tlc-redb", path="spec/Redb.tla spec/Trace_Redb.tla harness/src/redb_drv.rs",
                            serves_properties=["C18"], kind_free_text="TLA+ model of queue, batching writer, crash and load; TLC; prefix-cut validation of real recoveries"),
